@@ -554,12 +554,13 @@ func (sa *Safe) stdlib(fr *frame, st *State, x *ssa.Call, callee *ssa.Function, 
 		}
 		return one(sa.errResult(fr, st, desc))
 	case "(encoding/binary.bigEndian).Uint16", "(encoding/binary.bigEndian).Uint32", "(encoding/binary.bigEndian).Uint64",
-		"(encoding/binary.littleEndian).Uint16", "(encoding/binary.littleEndian).Uint32":
+		"(encoding/binary.littleEndian).Uint16", "(encoding/binary.littleEndian).Uint32", "(encoding/binary.littleEndian).Uint64":
 		n := map[string]int64{"16": 2, "32": 4, "64": 8}[name[len(name)-2:]]
 		b := args[len(args)-1]
 		need("safe.stdlib-pre", linConst(n), b.Len, fmt.Sprintf("%s needs at least %d octets", callee.Name(), n))
 		return one(sa.freshM(fr, st, sig.Results().At(0).Type(), desc, nilMaybe))
-	case "(encoding/binary.bigEndian).PutUint16", "(encoding/binary.bigEndian).PutUint32", "(encoding/binary.bigEndian).PutUint64":
+	case "(encoding/binary.bigEndian).PutUint16", "(encoding/binary.bigEndian).PutUint32", "(encoding/binary.bigEndian).PutUint64",
+		"(encoding/binary.littleEndian).PutUint16", "(encoding/binary.littleEndian).PutUint32", "(encoding/binary.littleEndian).PutUint64":
 		n := map[string]int64{"16": 2, "32": 4, "64": 8}[name[len(name)-2:]]
 		b := args[len(args)-2]
 		need("safe.stdlib-pre", linConst(n), b.Len, fmt.Sprintf("%s needs at least %d octets", callee.Name(), n))
